@@ -367,3 +367,107 @@ func c11LimitedRun(e *Env) {
 	e.Sleep(70 * time.Second) // every context has expired by now
 	w.Pump()
 }
+
+// C11, callbacks other than the message handler: the function given to AsyncPing runs when the pong arrives. Like a
+// handler it may issue a blocking request on the same connection; the answer to that request has to be processed while
+// the callback waits.
+func c11PongCallbackRun(e *Env) {
+	t := e.Tape
+	tr := PickTransport(t)
+	qsize := []int{16, 0, 1}[t.Choose(3)]
+	e.NoAutoRacy = true
+	var w *CWorld
+	if IsDatagram(tr) {
+		cfg := SimUDPConfig(int32(t.Choose(65536)))
+		cfg.TransmissionNStart = []uint32{16, 1}[t.Choose(2)]
+		cfg.TransmissionAcknowledgeTimeout = 2 * time.Second
+		cfg.TransmissionMaxRetransmit = 20
+		cfg.ReceivedMessageQueueSize = qsize
+		cfg.BlockwiseEnable = false
+		w = NewCWorld(e, CWorldCfg{Transport: tr, UDP: cfg})
+	} else {
+		w = NewCWorld(e, CWorldCfg{Transport: tr, TCPOpts: []tcp.Option{options.WithReceivedMessageQueueSize(qsize), options.WithCloseSocket()}})
+	}
+	if w == nil {
+		return
+	}
+	e.Real("net/client.ReceivedMessageReader", "AsyncPing (pong callback)")
+	e.Wait()
+	w.Pump()
+	e.Logf("cfg transport=%s queue=%d", tr, qsize)
+	var pingMsg, nestedMsg *WMsg
+	w.OnRecv = func(m *WMsg) {
+		switch {
+		case IsDatagram(tr) && m.Type == TCON && m.Code == 0, !IsDatagram(tr) && m.Code == 0xe2:
+			pingMsg = m
+		case m.Code >= 1 && m.Code <= 4 && ParseNonce(m) == 1000:
+			nestedMsg = m
+		}
+	}
+	returned := false
+	var nestedErr error
+	cb := func() {
+		e.Notef("pong callback: issues a request")
+		ctx, cancel := context.WithTimeout(context.Background(), 20*time.Second)
+		defer cancel()
+		resp, err := w.API.Get(ctx, "/from-callback", QueryOpt(1000))
+		if resp != nil {
+			w.API.ReleaseMessage(resp)
+		}
+		e.mu.Lock()
+		returned, nestedErr = true, err
+		e.mu.Unlock()
+		e.Notef("pong callback: request returned err=%v", err != nil)
+	}
+	var cancelPing func()
+	var err error
+	if w.UCC != nil {
+		cancelPing, err = w.UCC.AsyncPing(cb)
+	} else {
+		cancelPing, err = w.TEP.CC.AsyncPing(cb)
+	}
+	if err != nil {
+		return
+	}
+	e.OnCleanup(cancelPing)
+	e.Wait()
+	w.Pump()
+	if pingMsg == nil {
+		return
+	}
+	emit := func(m *WMsg, label string) {
+		it := w.Queue(m, label)
+		it.NoDup, it.NoDrop = true, true
+		w.Emit(it, false)
+		e.Wait()
+		w.Pump()
+	}
+	if IsDatagram(tr) {
+		emit(&WMsg{Type: TRST, Code: 0, MID: pingMsg.MID}, "pong")
+	} else {
+		emit(&WMsg{Code: 0xe3, Token: pingMsg.Token}, "pong")
+	}
+	if nestedMsg == nil {
+		e.Violate("C11.R4", "callback-request-not-sent", "the pong was handed to the connection; the request issued by the pong callback has not reached the wire")
+		return
+	}
+	e.NonTrivial()
+	e.Probe("nested.requestFromPongCallback")
+	if IsDatagram(tr) && nestedMsg.Type == TCON {
+		emit(&WMsg{Type: TACK, Code: 0x45, MID: nestedMsg.MID, Token: nestedMsg.Token, Payload: []byte("nested")}, "answer to the callback's request")
+	} else {
+		emit(&WMsg{Type: TNON, Code: 0x45, MID: w.NextPeerMID(), Token: nestedMsg.Token, Payload: []byte("nested")}, "answer to the callback's request")
+	}
+	e.Sleep(time.Second)
+	w.Pump()
+	e.mu.Lock()
+	ret, nerr := returned, nestedErr
+	e.mu.Unlock()
+	if !ret {
+		e.Violate("C11.R4", "nested-operation-stalled:request-from-pong-callback", "the answer to the request issued by the AsyncPing callback was handed to the connection a second ago and the request has not returned: the callback runs on the goroutine that reads the connection, nothing is processed while it waits")
+	} else if nerr != nil {
+		e.Violate("C11.R4", "nested-operation-failed:request-from-pong-callback", "the request issued by the AsyncPing callback failed although its answer was handed to the connection: %s", trimErr(nerr))
+	}
+	e.Sleep(30 * time.Second)
+	w.Pump()
+}
